@@ -880,10 +880,17 @@ class Atoms(list):
             distance_tol_float = float(distance_tol)
 
         # Calculate a normal vector to the first two atomic vectors from atom 0
+        # that are not colinear, as colinear atoms do not define a plane
         x0 = arr[0, :]
-        normal_vec = np.cross(arr[1, :] - x0, arr[2, :] - x0)
+        normal_vec = np.zeros(3)
 
-        for i in range(3, len(self)):
+        for j in range(2, len(self)):
+            normal_vec = np.cross(arr[1, :] - x0, arr[j, :] - x0)
+
+            if np.linalg.norm(normal_vec) > 1e-8:
+                break
+
+        for i in range(2, len(self)):
             # Calculate the 0->i atomic vector, which must not have any
             # component in the direction in the normal if the atoms are planar
             if abs(np.dot(normal_vec, arr[i, :] - x0)) > distance_tol_float:
